@@ -104,6 +104,11 @@ def run(ctx):
     if len(mains) == 2:
         tg.regen_generated(mains)
     proof_ok = ctx.coq()
+    chk = None
+    if proof_ok and not ctx.quick:
+        # independent re-check of the compiled theorems and their axiom report (DESIGN.md §7.1)
+        chk_pool = ThreadPoolExecutor(max_workers=1)
+        chk = chk_pool.submit(vlib.sh, "coqchk -o -silent -Q . SQV SQV.Properties.C20", vlib.COQ, 1500)
     vlib.sh("make -j%d Spec/AutoTrait.vo Generated/TypeGraph.vo Generated/TypeGraphNoTS.vo" % vlib.NCPU,
             cwd=vlib.COQ, timeout=900)
 
@@ -165,6 +170,9 @@ def run(ctx):
     cov["disagreements"] = len(disagreements)
     cov["oracle_failures"] = len(failures)
     cov["exhaustive"] = True
+    cov["rustdoc_format_version"] = sorted(set(str(r[0].format_version) for r in results.values()))
+    cov["toolchains"] = {"rustdoc_json": vlib.sh("cargo +nightly --version")[1].strip(),
+                         "harness": vlib.sh("rustc --version")[1].strip()}
     cov["distribution"] = dist
     cov["external_leaves_assumed_send_sync"] = sorted(ext)
     cov["rule"] = ("every public struct/enum of sea_query that another crate can name (generic ones instantiated with a "
@@ -194,9 +202,23 @@ def run(ctx):
                    "disagreements": [(k, results[k][0].nodes[i]["name"], t, r, m) for k, i, t, r, m in disagreements[:2000]],
                    "errors": [(str(c), str(e)[-2000:]) for c, e in errors]}, f, indent=1)
 
+    if chk is not None:
+        try:
+            rc, out = chk.result()
+        except Exception as e:  # noqa
+            rc, out = 1, str(e)
+        ok = rc == 0 and "* Axioms: <none>" in out
+        cov["coqchk"] = {"cmd": "cd coq && coqchk -o -silent -Q . SQV SQV.Properties.C20", "ok": ok,
+                         "summary": out[out.find("CONTEXT SUMMARY"):][:600] if "CONTEXT SUMMARY" in out else out[-600:]}
+        ctx.log("coqchk:", "ok, no axioms" if ok else "FAILED")
+        if not ok:
+            proof_ok = False
+            ctx.proof["error"] = "coqchk: " + out[-1500:]
     # verdict -------------------------------------------------------------------------------------
     failures.sort(key=lambda x: (x[0], x[1], x[2], x[3]))
-    for _, key, i, tname, path in failures[:3]:
+    # report the root cause (shortest path) and a statement type that it breaks
+    chosen = failures[:2] + [f for f in failures[2:] if results[f[1]][0].nodes[f[2]]["item"].endswith("Statement")][:1]
+    for _, key, i, tname, path in (chosen + failures[2:])[:3]:
         g, table, _ = results[key]
         mvd = verdicts[key][i] if verdicts.get(key) else None
         ctx.violation(violation_obj(g, i, tname, table[i], mvd, path))
